@@ -22,8 +22,9 @@ var c10lists = [][]int{{0}, {1}, {0, 1}, {1, 0}, {1, 1, 0}, {2, 0}, {0, 2, 1}, {
 func VerifC10Threads() {
 	T := vnd.Param("T", 2)
 	db := New(WithMetrics(&NopMetrics{}))
+	// NTAB: number of tables of the database (default 3; with NTAB=1 a transaction on {t0} holds every table)
 	var tables [3]RWTable[*vobj]
-	for i, n := range []string{"t0", "t1", "t2"} {
+	for i, n := range []string{"t0", "t1", "t2"}[:vnd.Param("NTAB", 3)] {
 		t, err := NewTable[*vobj](db, n, vIDIndex)
 		if err != nil {
 			panic(err)
@@ -87,12 +88,12 @@ func VerifC10Threads() {
 	}
 	// a reader never waits
 	rt := db.ReadTxn()
-	for i := range tables {
+	for i := range tables[:vnd.Param("NTAB", 3)] {
 		_ = tables[i].NumObjects(rt)
 	}
 	wg.Wait()
 	rt = db.ReadTxn()
-	for i := range tables {
+	for i := range tables[:vnd.Param("NTAB", 3)] {
 		want, wantRev := 0, 0
 		for th := range commits {
 			want += commits[th][i]
